@@ -127,7 +127,11 @@ def run_tlc(module, cfg, env, wd, timeout=900, workers=1, heap="6g", simulate=No
     meta = os.path.join(wd, "states-" + module + "-" + uuid.uuid4().hex[:12])     # unique among parallel runs
     e = dict(os.environ)
     e.update({k: str(v) for k, v in env.items()})
-    e["JAVA_TOOL_OPTIONS"] = "-Xss1g -Dtlc2.tool.queue.IStateQueue=StateDeque" if workers == 1 else "-Xss512m"
+    # (the parser's temporary directories go into the run's own directory, which is removed afterwards,
+    # not into /tmp)
+    jtmp = meta + "-tmp"
+    os.makedirs(jtmp, exist_ok=True)
+    e["JAVA_TOOL_OPTIONS"] = ("-Xss1g -Dtlc2.tool.queue.IStateQueue=StateDeque" if workers == 1 else "-Xss512m") + " -Djava.io.tmpdir=" + jtmp
     cmd = ["timeout", str(timeout), "java", "-Xmx" + heap, "-XX:+UseParallelGC", "-cp", "/opt/veriftools/tla/tla2tools.jar:/opt/veriftools/tla/CommunityModules-deps.jar",
            "tlc2.TLC", "-workers", str(workers), "-metadir", meta, "-cleanup", "-noGenerateSpecTE",
            "-config", os.path.join(SPEC, cfg)]
@@ -139,6 +143,7 @@ def run_tlc(module, cfg, env, wd, timeout=900, workers=1, heap="6g", simulate=No
     p = subprocess.run(cmd, stdout=subprocess.PIPE, stderr=subprocess.STDOUT, text=True, env=e, cwd=wd)
     out = p.stdout
     shutil.rmtree(meta, ignore_errors=True)
+    shutil.rmtree(jtmp, ignore_errors=True)
     with open(os.path.join(wd, "tlc-%s.out" % module), "a") as f:
         f.write(out)
     res = dict(out=out, rc=p.returncode, wall=time.time() - t0, states=0, distinct=0)
@@ -150,7 +155,7 @@ def run_tlc(module, cfg, env, wd, timeout=900, workers=1, heap="6g", simulate=No
     res["error"] = None
     if "Parsing or semantic analysis failed" in out or "Could not find" in out:
         raise ToolError("TLC could not load the specification:\n" + out[-2500:])
-    if "java.io." in out or "OutOfMemoryError" in out or "No space left" in out:
+    if re.search(r"java\.io\.\w*(Exception|Error)", out) or "OutOfMemoryError" in out or "No space left" in out:
         # the tool failed (files, memory), not the specification or the trace
         raise ToolError("TLC failed for an environmental reason:\n" + out[-1500:])
     if "Error:" in out:
